@@ -25,8 +25,9 @@ def run(ctx):
         "(excluded names and unselected jobs neither created nor modified, newly cloned jobs included); deep=True on every "
         "differing-file shape at job and project level; parallel in {2, True} against the sequential destination tree on all "
         "ordered 2- (thorough: 3-) shape projects, once free-running with the real ThreadPool and once under engine T: "
-        "every interleaving of the pool's threads with <= 1 (every third two-task pair, and thorough: 2) preemptions, scheduling points "
-        "before every mutating system call, each compared with the sequential destination tree"))
+        "every interleaving of the pool's threads with <= 1 preemption over all system calls, and with <= 2 preemptions "
+        "over the mutating calls and directory listings on every third two-task pair and on six cases whose tasks share an "
+        "exclude list (thorough: on all two- and three-task cases), each compared with the sequential destination tree"))
     r.assumptions += ["engine T serialises the pool's threads (one runs at a time) and switches only before system calls; races "
                       "between two byte-code instructions without a system call in between are not explored",
                       "the free-running ThreadPool comparison is an additional smoke test, not part of the exhaustive claim"]
